@@ -136,10 +136,15 @@ func expansion(sc *httpscenario.Scenario) string {
 		}
 		parts = append(parts, reqID(r.URI)+"/"+ms)
 	}
-	if len(parts) == 0 {
-		return "-"
+	// the scenario-level pause the gun will honour for this (cloned) ammo
+	mw := "x"
+	if sc.MinWaitingTime%time.Millisecond == 0 {
+		mw = strconv.FormatInt(int64(sc.MinWaitingTime/time.Millisecond), 10)
 	}
-	return strings.Join(parts, ".")
+	if len(parts) == 0 {
+		return "-@" + mw
+	}
+	return strings.Join(parts, ".") + "@" + mw
 }
 
 func runProvider(p core.Provider) context.CancelFunc {
@@ -210,6 +215,7 @@ func runShot(f []string) string {
 			break
 		}
 		a0, s0 := target.Len(), ag.n()
+		begin := time.Now()
 		res := make(chan string, 1)
 		go func() {
 			defer func() {
@@ -278,7 +284,32 @@ func runShot(f []string) string {
 			}
 			return strings.Join(x, ",")
 		}
-		out = append(out, fmt.Sprintf("[%s exp=%s sends=%s samples=%s pause=%s]", sc.Name, expansion(sc), j(sends), j(samples), vh.B(pauseOK)))
+		// min_waiting_time as WRITTEN in the description (not the field of the acquired ammo): a shot
+		// whose steps all succeeded lasts at least that long, and not much longer than
+		// max(min_waiting_time, sum of the step pauses) when the steps are fast
+		minOK := true
+		var written, sumSleep time.Duration
+		for _, s := range spec.Scens {
+			if s.Name == sc.Name {
+				written = time.Duration(s.MinWait) * time.Millisecond
+			}
+		}
+		for _, r := range sc.Requests {
+			if r.Sleep > 0 {
+				sumSleep += r.Sleep
+			}
+		}
+		if nOK == len(samples) && len(samples) == len(sc.Requests) {
+			wall := end.Sub(begin)
+			lim := written
+			if sumSleep > lim {
+				lim = sumSleep
+			}
+			if wall < written || wall > lim+5*time.Second {
+				minOK = false
+			}
+		}
+		out = append(out, fmt.Sprintf("[%s exp=%s sends=%s samples=%s pause=%s minw=%s]", sc.Name, expansion(sc), j(sends), j(samples), vh.B(pauseOK), vh.B(minOK)))
 	}
 	return "ok " + strings.Join(out, " ")
 }
